@@ -1,16 +1,16 @@
 (* C01: render_fits by structural induction over renderable trees. *)
 From RichModel Require Import Prelude Cells Segments Ratio Frames Layout SpecLayout.
 From RichModel Require Table Wrap SpecTable.
-From RichProofs Require Import CellsP SegmentsP RatioP TableP FramesP FramesP2 LayoutP LayoutP2 LayoutP3 LayoutP4 LayoutP5 LayoutP6.
+From RichProofs Require Import CellsP SegmentsP RatioP TableP FramesP FramesP2 LayoutP LayoutP2 LayoutP8 LayoutP3 LayoutP4 LayoutP5 LayoutP6.
 From Coq Require Import ZifyBool.
 
 Definition ro_ok (ro : ropts) : Prop := ro_overflow ro <> Some Wrap.OV_IGNORE.
 
-(* rendered at W', bounded by W: W' <= W, W at or above the structural minimum; the width actually
-   handed down (W') may be below the structural minimum only when no table sits on the non-cropping spine *)
+(* rendered at W', bounded by W: W' <= W and W at or above the structural minimum.  The width actually
+   handed down (W') may be anything: Align renders its child at the child's measured maximum, Constrain at
+   its own width -- both may be below the child's structural minimum *)
 Definition Pfit (cf : cfg) (r : R) : Prop :=
   forall ro W' W, wrappable r = true -> ro_ok ro -> W' <= W -> W <= cW cf -> smin r <= W ->
-    (spine_tables r = false \/ smin r <= W') ->
     sfits W (render_at (den cf r ro) W') /\ (ends_nl r = true -> nlterm (render_at (den cf r ro) W')).
 
 Lemma render_at_small (c : child) w : w < 1 -> render_at c w = [].
@@ -156,73 +156,66 @@ Theorem den_fits cf : forall r, Pfit cf r.
 Proof.
   apply R_ind2; unfold Pfit.
   - (* Txt *)
-    intros s j ov nw ro W' W Hw Hro Hle HcW Hs Hd. cbn [den]. small W'. cbn [text_child crender].
+    intros s j ov nw ro W' W Hw Hro Hle HcW Hs. cbn [den]. small W'. cbn [text_child crender].
     cbn [wrappable] in Hw. apply andb_true_iff in Hw as [Hov _].
     split; [|intros _; apply text_stream_nlterm].
     eapply sfits_mono; [exact Hle|]. apply text_stream_fits; [exact Hb|apply ov_ok; assumption].
   - (* Pad *)
-    intros c t rr b l ex _ ro W' W Hw Hro Hle HcW Hs Hd. cbn [den]. small W'. cbn [padding_child crender].
+    intros c t rr b l ex _ ro W' W Hw Hro Hle HcW Hs. cbn [den]. small W'. cbn [padding_child crender].
     cbn [wrappable] in Hw. repeat (apply andb_true_iff in Hw as [Hw ?]).
     split; [|intros _; apply nlterm_stream_of].
     eapply sfits_mono; [exact Hle|]. apply padding_sfits; lia.
   - (* Panel *)
-    intros c o _ ro W' W Hw Hro Hle HcW Hs Hd. cbn [den]. small W'. cbn [panel_child crender].
+    intros c o _ ro W' W Hw Hro Hle HcW Hs. cbn [den]. small W'. cbn [panel_child crender].
     cbn [wrappable] in Hw. apply andb_true_iff in Hw as [Hw _]. apply andb_true_iff in Hw as [Hp _].
     split; [|intros _; apply nlterm_stream_of].
     apply panel_sfits_any; [exact Hle|lia|exact Hp|]. pose proof (panel_floor_le c o). lia.
   - (* Align *)
-    intros c how pad w IH ro W' W Hw Hro Hle HcW Hs Hd. cbn [den]. small W'. cbn [align_child crender].
-    cbn [wrappable] in Hw. apply andb_true_iff in Hw as [Hwc Hsp]. apply negb_true_iff in Hsp.
+    intros c how pad w IH ro W' W Hw Hro Hle HcW Hs. cbn [den]. small W'. cbn [align_child crender].
+    cbn [wrappable smin] in *.
     split; [|intros _; apply nlterm_stream_of].
     apply align_sfits2; [exact Hb|exact Hle|]. cbv zeta.
-    refine (proj1 (IH ro _ W Hwc Hro _ HcW Hs (or_introl Hsp))). lia.
+    refine (proj1 (IH ro _ W Hw Hro _ HcW Hs)). lia.
   - (* Constrain *)
-    intros c w IH ro W' W Hw Hro Hle HcW Hs Hd. cbn [den]. small W'. cbn [constrain_child crender].
+    intros c w IH ro W' W Hw Hro Hle HcW Hs. cbn [den]. small W'. cbn [constrain_child crender].
     rewrite constrain_render_eq by exact Hb.
-    cbn [wrappable] in Hw. apply andb_true_iff in Hw as [Hwc Hcw]. cbn [smin spine_tables ends_nl] in *.
-    apply IH; try assumption.
-    + destruct w; lia.
-    + destruct Hd as [Hd|Hd]; [left; exact Hd|right]. destruct w as [x|]; lia.
+    cbn [wrappable smin ends_nl] in *.
+    apply IH; try assumption. destruct w; lia.
   - (* Styled *)
-    intros c IH ro W' W Hw Hro Hle HcW Hs Hd. cbn [den]. small W'. cbn [styled_child crender].
-    cbn [wrappable smin spine_tables ends_nl] in *.
-    destruct (IH ro W' W Hw Hro Hle HcW Hs Hd) as [I1 I2].
+    intros c IH ro W' W Hw Hro Hle HcW Hs. cbn [den]. small W'. cbn [styled_child crender].
+    cbn [wrappable smin ends_nl] in *.
+    destruct (IH ro W' W Hw Hro Hle HcW Hs) as [I1 I2].
     split; [apply styled_sfits; exact I1|intros He; apply styled_nlterm; apply I2; exact He].
   - (* Group *)
-    intros cs fit IH ro W' W Hw Hro Hle HcW Hs Hd. cbn [den]. small W'. cbn [group_child crender].
+    intros cs fit IH ro W' W Hw Hro Hle HcW Hs. cbn [den]. small W'. cbn [group_child crender].
     cbn [wrappable] in Hw. apply andb_true_iff in Hw as [Hwc Hab]. cbn [ends_nl].
     apply group_fits'; [|exact Hab].
     rewrite Forall_forall in IH |- *. intros c Hc.
     rewrite forallb_forall in Hwc.
     assert (Hsc : smin c <= smin (Group cs fit)) by (cbn [smin]; apply maxl_ge, in_map; exact Hc).
-    apply (IH c Hc ro W' W (Hwc c Hc) Hro Hle HcW); [lia|].
-    destruct Hd as [Hd|Hd]; [left|right; lia].
-    cbn [spine_tables] in Hd. destruct (spine_tables c) eqn:E; [|reflexivity].
-    assert (existsb spine_tables cs = true) by (apply existsb_exists; exists c; split; assumption). congruence.
+    apply (IH c Hc ro W' W (Hwc c Hc) Hro Hle HcW). lia.
   - (* Rule *)
-    intros title chars how ro W' W Hw Hro Hle HcW Hs Hd. cbn [den]. small W'. cbn [rule_child crender].
+    intros title chars how ro W' W Hw Hro Hle HcW Hs. cbn [den]. small W'. cbn [rule_child crender].
     cbn [wrappable] in Hw. split; [|intros _; apply nlterm_str_lines_stream].
     eapply sfits_mono; [exact Hle|]. apply rule_sfits; lia.
   - (* Bar *)
-    intros size b e w ro W' W Hw Hro Hle HcW Hs Hd. cbn [den]. small W'. cbn [bar_child crender].
+    intros size b e w ro W' W Hw Hro Hle HcW Hs. cbn [den]. small W'. cbn [bar_child crender].
     cbn [wrappable] in Hw. apply andb_true_iff in Hw as [_ Hw]. split; [|intros _; apply bar_nlterm].
     eapply sfits_mono; [exact Hle|]. apply bar_sfits; [lia|destruct w; [lia|exact Logic.I]].
   - (* PBar *)
-    intros total completed w pulse t ro W' W Hw Hro Hle HcW Hs Hd. cbn [den]. small W'.
+    intros total completed w pulse t ro W' W Hw Hro Hle HcW Hs. cbn [den]. small W'.
     cbn [wrappable] in Hw. split; [|cbn [ends_nl]; discriminate].
     eapply sfits_mono; [exact Hle|]. apply pbar_sfits; [lia|destruct w; [lia|exact Logic.I]].
   - (* Tbl *)
-    intros t rows _ ro W' W Hw Hro Hle HcW Hs Hd. cbn [den]. small W'. cbn [table_child crender].
-    destruct Hd as [Hd|Hd]; [cbn [spine_tables] in Hd; discriminate|].
+    intros t rows _ ro W' W Hw Hro Hle HcW Hs. cbn [den]. small W'. cbn [table_child crender].
     pose proof (wrappable_tbl_ok t rows Hw) as Hok.
     assert (Hp : nonneg4 (Table.o_pad (tb_o t)) = true).
     { unfold tbl_ok in Hok. repeat (apply andb_true_iff in Hok as [Hok ?]). exact Hok. }
     pose proof (smin_tbl_ge t rows Hp) as Hge.
-    destruct (table_stream_fits cf t (map (map (fun c : R => den cf c)) rows) ro W' Hok Hro ltac:(lia)) as [T1 T2].
-    split; [eapply sfits_mono; [exact Hle|exact T1]|intros _; exact T2].
+    destruct (table_stream_fits cf t (map (map (fun c : R => den cf c)) rows) ro W' Hok Hro) as [T1 T2].
+    split; [eapply sfits_mono; [|exact T1]; lia|intros _; exact T2].
   - (* Cols *)
-    intros items o _ ro W' W Hw Hro Hle HcW Hs Hd. cbn [den]. small W'. cbn [columns_child crender].
-    destruct Hd as [Hd|Hd]; [cbn [spine_tables] in Hd; discriminate|].
+    intros items o _ ro W' W Hw Hro Hle HcW Hs. cbn [den]. small W'. cbn [columns_child crender].
     cbn [wrappable] in Hw. apply andb_true_iff in Hw as [Hp _].
     unfold columns_stream. destruct (map (fun c : R => den cf c) items) as [|it its] eqn:Eits;
       [split; [apply sfits_nil|intros _; apply nlterm_nil]|].
@@ -245,18 +238,19 @@ Proof.
       apply forallb_forall. intros x Hx. destruct Hx as [<-|Hx]; [reflexivity|apply repeat_spec in Hx; subst; reflexivity]. }
     assert (Hex : Table.extra_width (tb_o t) (length (tb_cols t)) = 0) by reflexivity.
     match goal with |- context [table_stream t (table_cols cf t ?rr) ro W'] =>
-      destruct (table_stream_fits cf t rr ro W' Hok Hro ltac:(rewrite Hex; lia)) as [T1 T2] end.
-    split; [eapply sfits_mono; [exact Hle|exact T1]|intros _; exact T2].
+      destruct (table_stream_fits cf t rr ro W' Hok Hro) as [T1 T2] end.
+    rewrite Hex in T1.
+    split; [eapply sfits_mono; [|exact T1]; lia|intros _; exact T2].
   - (* Tree *)
-    intros lab kids ex _ _ ro W' W Hw Hro Hle HcW Hs Hd. cbn [den]. small W'.
+    intros lab kids ex _ _ ro W' W Hw Hro Hle HcW Hs. cbn [den]. small W'.
     match goal with |- context [crender (tree_child ?t) W'] => destruct (tree_sfits t W') as [T1 T2] end.
     split; [eapply sfits_mono; [exact Hle|exact T1]|intros _; exact T2].
   - (* NoMeasure *)
-    intros c IH ro W' W Hw Hro Hle HcW Hs Hd. cbn [den]. rewrite render_at_nomeasure.
-    cbn [wrappable smin spine_tables ends_nl] in *. apply IH; assumption.
+    intros c IH ro W' W Hw Hro Hle HcW Hs. cbn [den]. rewrite render_at_nomeasure.
+    cbn [wrappable smin ends_nl] in *. apply IH; assumption.
   - (* Cast *)
-    intros c IH ro W' W Hw Hro Hle HcW Hs Hd. cbn [den].
-    cbn [wrappable smin spine_tables ends_nl] in *. apply andb_true_iff in Hw as [_ Hw]. apply IH; assumption.
+    intros c IH ro W' W Hw Hro Hle HcW Hs. cbn [den].
+    cbn [wrappable smin ends_nl] in *. apply andb_true_iff in Hw as [_ Hw]. apply IH; assumption.
 Qed.
 
 (* ---------------------------------------------------------------- C01 *)
@@ -269,7 +263,7 @@ Theorem render_fits : forall cf r W lines,
 Proof.
   intros cf r W lines Hw Hs HcW H. unfold render in H. destruct (fails cf r ro0 W); [discriminate|].
   injection H as <-. apply fits_b_lines.
-  exact (proj1 (den_fits cf r ro0 W W Hw ro0_ok ltac:(lia) HcW Hs (or_intror Hs))).
+  exact (proj1 (den_fits cf r ro0 W W Hw ro0_ok ltac:(lia) HcW Hs)).
 Qed.
 
 (* ---------------------------------------------------------------- C09: measure_sound is render_fits at
